@@ -9,7 +9,7 @@ use crate::{
     report::{KnownFindings, Run, absorb},
     scratch::Scratch,
     seqx::{self, Limits, Report, Sys},
-    vecx::{Ix, Subject, VecCfg, VecSys},
+    vecx::{Ix, Subject, VecCfg, VecOp, VecSys},
 };
 
 fn kinds(list: &[&'static str]) -> BTreeSet<&'static str> {
@@ -32,6 +32,7 @@ pub fn profile(name: &str) -> VecCfg {
         max_commits: 3,
         op_timeout_ms: 10_000,
         holed_cursor: false,
+        prefill: vec![],
     };
     let mut c = match name {
         // raw formats: the whole editing alphabet
@@ -138,6 +139,13 @@ pub fn profile_spec(spec: &str) -> VecCfg {
                 c.kinds.insert("faults_every_offset");
             }
             "reads" => c.reads = true,
+            // non-initial start states
+            "pre_w3" => c.prefill = vec![VecOp::Push(3), VecOp::Write],
+            "pre_pm1" => c.prefill = vec![VecOp::Push(P32 - 1), VecOp::Write],
+            "pre_p1" => c.prefill = vec![VecOp::Push(P32 + 1), VecOp::Write],
+            "pre_c2" => {
+                c.prefill = vec![VecOp::Push(2), VecOp::Commit(1), VecOp::Push(2), VecOp::Commit(1)]
+            }
             "holecursor" => {
                 c.reads = true;
                 c.holed_cursor = true;
@@ -241,11 +249,16 @@ fn plan(property: &str, tier: &str) -> Vec<(&'static str, &'static str, usize)> 
                     ("eager_bytes", "dense", 3),
                     ("eager_pco", "dense", 3),
                     ("bytes", "raw", 4),
+                    ("bytes", "raw+pre_w3", 4),
+                    ("pco", "dense+pre_pm1", 4),
                     ("pco", "dense", 5),
                 ]
             } else {
                 vec![
                     ("bytes", "raw", 5),
+                    ("bytes", "raw+pre_w3", 5),
+                    ("pco", "dense+pre_pm1", 5),
+                    ("pco", "dense+pre_p1", 5),
                     ("bytes", "raw_full", 3),
                     ("zerocopy", "raw", 4),
                     ("pco", "dense", 5),
@@ -283,11 +296,18 @@ fn plan(property: &str, tier: &str) -> Vec<(&'static str, &'static str, usize)> 
                 vec![
                     ("zstd", "dense+pidx", 3),
                     ("lz4", "dense+pidx", 4),
+                    ("lz4", "dense+pidx+pre_pm1", 4),
+                    ("pco", "dense+pidx+pre_pm1", 4),
+                    ("pco", "dense+pidx+pre_p1", 3),
                     ("pco", "dense+pidx", 5),
                 ]
             } else {
                 vec![
                     ("pco", "dense+pidx", 5),
+                    ("pco", "dense+pidx+pre_pm1", 6),
+                    ("pco", "dense+pidx+pre_p1", 5),
+                    ("lz4", "dense+pidx+pre_pm1", 5),
+                    ("zstd", "dense+pidx+pre_pm1", 5),
                     ("lz4", "dense+pidx", 5),
                     ("zstd", "dense+pidx", 4),
                     ("pco", "dense_full+pidx", 3),
